@@ -24,7 +24,7 @@ func propC02(c *Ctx) {
 	}
 	if fn := c.Fn(w1, ep+"Write"); fn != nil {
 		pl := "iface:tcpip.Payload.Get($1, ($0.sndBufSize - $0.sndBufUsed))"
-		g := []string{"!$0.sndClosed", "!(0 == iface:tcpip.Payload.Size($1))", "($0.state == 4)", "(0 < ($0.sndBufSize - $0.sndBufUsed))", "(" + pl + "#1 == nil)"}
+		g := []string{"!$0.sndClosed", "!(0 == iface:tcpip.Payload.Size($1))", "($0.state == 4)", "!(($0.sndBufSize - $0.sndBufUsed) < 1)", "(" + pl + "#1 == nil)"}
 		c.CheckSites(w1, fn, []SiteSpec{
 			{Kind: "call", Target: "(*tcp.segmentList).PushBack", Args: []string{"&$0.sndQueue", "tcp.newSegmentFromView(&$0.route, $0.id, " + pl + "#0)"}, Guards: g, Exact: true, N: 1, Why: "data is queued at the back, only in connected state, with buffer room, and only while the send side is not closed"},
 			{Kind: "call", Target: ep + "handleWrite", Args: []string{"$0"}, Guards: append(append([]string{}, g...), "(*tmutex.Mutex).TryLock(&$0.workMu)"), Exact: true, N: 1, Why: "the writer processes the queue itself when it gets the work mutex ..."},
